@@ -16,7 +16,7 @@ LEVEL = "exploration"
 TECHNIQUE = ("runtime differential monitor: File.validate() on generated files vs a reference validator evaluated on the construction "
              "recipe (model) of the file, compared per object and error kind, on well-formed files and after single / pairwise "
              "injection of catalogued inconsistencies")
-RULE = ("Case = one validate() call on one generated file state: the well-formed file, or the file after 1-2 injections out of 37 kinds "
+RULE = ("Case = one validate() call on one generated file state: the well-formed file, or the file after 1-2 injections out of 39 kinds "
         "(surplus / missing descriptors, tick / label count, missing / unsorted ticks, non-SI dimension unit, missing / negative "
         "interval, missing position(s), position / extent / unit length mismatches, non-SI and unconvertible tag units, missing "
         "type / name / date / id on every entity kind, on properties and features) at a random eligible object.  Files: 1-2 blocks, "
@@ -624,6 +624,24 @@ def injections(nix, np):
             set_units(G, t, us)
             return which
         add("%s_units_length" % which[:-1], units_len)
+
+    for which in ("tags", "mtags"):
+        def add_ref_other_rank(G, which=which):
+            # a second reference whose rank differs: position / extent / unit lengths can then match at most one of the references
+            t = pick_tag(G, which, need_refs=True)
+            if t is None:
+                return None
+            have = {len(next(a for a in G.model["arrays"] if a["path"] == r)["shape"]) for r in t["refs"]}
+            blk = t["path"].split("/")[2]
+            cand = [a for a in G.model["arrays"] if a["path"].split("/")[2] == blk and len(a["shape"]) not in have
+                    and a["path"] not in t["refs"] and a["path"] in G.live]
+            if not cand:
+                return None
+            a = G.rng.choice(cand)
+            G.live[t["path"]].references.append(G.live[a["path"]])
+            t["refs"] = t["refs"] + [a["path"]]
+            return which
+        add("%s_reference_of_other_rank" % which[:-1], add_ref_other_rank)
 
     def tag_pos_len(G):
         t = pick_tag(G, "tags", need_refs=True)
